@@ -56,6 +56,21 @@ func c02Adversarial(name string, rnd *rand.Rand, variant int, hist map[string]in
 		r.block(&BlockIn{Txs: txs, Absent: map[int]bool{}}, d)
 	}
 	m := r.memo
+	// mempool policy of the stream: consecutive blocks cycle through deliver-only / CheckTx right before the block / CheckTx, then an
+	// unrelated block, then the delivery - so every forged transaction is seen by CheckTx first in two of three cases
+	advN := 0
+	advBlock := func(txs [][]byte, descr []string) {
+		advN++
+		switch advN % 3 {
+		case 0:
+			r.block(&BlockIn{Txs: txs, Absent: map[int]bool{}}, descr)
+		case 1:
+			r.blockPre(&BlockIn{Txs: txs, Absent: map[int]bool{}}, descr, txs)
+		default:
+			r.blockPre(&BlockIn{Txs: [][]byte{txSend(u0, u1.Addr, oltAmt("1000"), m())}, Absent: map[int]bool{}}, []string{"unrelated block between CheckTx and delivery"}, txs)
+			r.block(&BlockIn{Txs: txs, Absent: map[int]bool{}}, descr)
+		}
+	}
 	// ---- set-up: the same situations as harness/txlab.go ----
 	blk("")
 	blk("")
@@ -80,6 +95,12 @@ func c02Adversarial(name string, rnd *rand.Rand, variant int, hist map[string]in
 	blk("")
 	blk("")
 	blk("") // the unstaked amounts are withdrawable, the undelegated amount is back, rewards have accrued
+
+	// ---- a reward withdrawal that matures while the delegation pool is empty (before anybody donates to the pool) ----
+	r.exodus(variant%2 == 0)
+	blk("setup", txDelegate(u1, oltAmt("250000000000000000000"), m()), txDelegate(u2, oltAmt("70000000000000000000"), m()))
+	blk("")
+	blk("")
 
 	unitOne := big.NewInt(1)
 	delegPool := keys.Address("00000000000000000001")
@@ -216,7 +237,7 @@ func c02Adversarial(name string, rnd *rand.Rand, variant int, hist map[string]in
 			txs, descr := [][]byte{}, []string{}
 			flush := func() {
 				if len(txs) > 0 {
-					r.block(&BlockIn{Txs: txs, Absent: map[int]bool{}}, descr)
+					advBlock(txs, descr)
 					txs, descr = nil, nil
 				}
 			}
@@ -309,7 +330,7 @@ func c02Adversarial(name string, rnd *rand.Rand, variant int, hist map[string]in
 			if n > len(txs) {
 				n = len(txs)
 			}
-			r.block(&BlockIn{Txs: txs[:n], Absent: map[int]bool{}}, descr[:n])
+			advBlock(txs[:n], descr[:n])
 			txs, descr = txs[n:], descr[n:]
 		}
 	}
